@@ -29,6 +29,7 @@ PROP = {  # commit subject fragment -> (property, id)
  "left positioned beyond it": ("C01", "F28"),
  "from_value cannot produce a Value": ("C19", "F29"),
  "tuple variant without fields": ("C19", "F30"),
+ "with utf8_lossy, from_slice into a Value": ("C09", "F31"),
 }
 KNOWN = []
 out = []
